@@ -273,6 +273,48 @@ def check(chk):
         for kind, node, detail in units.scan_function(g):
             chk.observe("UNIT-3", detail + " (final brightness unaffected: not gating)", g.where(node))
 
+    # a batched channel remembers a brightness as "sent, nothing more to do" only for the *last* step of a fade: the cached value short-cuts every
+    # later call (returned as done).  So the cache is written exactly where the step is declared done.
+    gf_ = repo.func(BL, "PlatformBatchLight.get_fade_and_brightness")
+    chk.analysed(gf_)
+    gfc = gf_.cfg()
+    from sa.cfg import canon_set as _cs9b
+    cache = [n for n in gfc.nodes if n.kind == "stmt" and isinstance(n.ast, ast.Assign) and src(n.ast.targets[0]) == "self._last_brightness"]
+    dn = {True: [], False: []}
+    for n in gfc.nodes:
+        if n.kind == "stmt" and isinstance(n.ast, ast.Assign) and src(n.ast.targets[0]) == "done" and src(n.ast.value) in ("True", "False"):
+            dn[src(n.ast.value) == "True"].append(n)
+    ok = len(cache) == 1 and len(dn[True]) == 1 and len(dn[False]) >= 1
+    if ok:
+        gc = set(_cs9b(gfc.guards_at(cache[0].id)))
+        ok = gc >= set(_cs9b(gfc.guards_at(dn[True][0].id))) and all(not (gc <= set(_cs9b(gfc.guards_at(x.id))) ) or gc != set(_cs9b(gfc.guards_at(x.id))) for x in dn[False]) \
+            and not any(gfc.path_avoiding(cache[0].id, [x.id], []) or gfc.path_avoiding(x.id, [cache[0].id], []) for x in dn[False])
+    chk.ob("BATCH-2", "a batched channel caches a brightness as final only on the path that declares the step done (an intermediate step of a long "
+           "fade is never cached: the next step would be returned as already sent and the fade would stall)", ok, gf_.where(cache[0].ast if cache else None),
+           construct=gf_.ident, text="final brightness cache")
+    # channels of one colour: a light whose type repeats a colour letter (ww, rgbrgb) collects all its drivers of that colour.  The per-colour
+    # list is created once - where a loader appends per letter, the (re)creation is guarded by absence
+    for nm_ in ("_load_hw_driver_sequentially", "_load_hw_drivers"):
+        lf = repo.func(LT, "Light." + nm_)
+        chk.analysed(lf)
+        lc = lf.cfg()
+        for n in lc.nodes:
+            if n.kind == "stmt" and isinstance(n.ast, ast.Assign) and src(n.ast.targets[0]).startswith("self.hw_drivers[") and src(n.ast.value) in ("[]", "list()"):
+                key = src(n.ast.targets[0].slice)
+                g = lc.guards_at(n.id)
+                from sa.cfg import expand_equiv as _ee
+                ge = _ee(g)
+                guarded = ge.get("%s not in self.hw_drivers" % key) is True or ge.get("%s in self.hw_drivers" % key) is False
+                # ... or the loop walks the items of a mapping keyed by colour: every key comes once
+                encl = [lp for lp in ast.walk(lf.node) if isinstance(lp, ast.For) and any(y is n.ast for b in lp.body for y in ast.walk(b))]
+                if encl:
+                    inner = min(encl, key=lambda lp: len(list(ast.walk(lp))))
+                    if isinstance(inner.iter, ast.Call) and call_attr(inner.iter) == "items" and isinstance(inner.target, ast.Tuple) and src(inner.target.elts[0]) == key:
+                        guarded = True
+                chk.ob("SIB-3", "Light.%s creates the driver list of a colour only when there is none yet (a repeated colour letter keeps its "
+                       "earlier channels)" % nm_, guarded, lf.where(n.ast), detail="guards %s" % sorted(g.items()), construct=lf.ident,
+                       text="colour driver list reset in " + nm_)
+
     # ------------------------------------------------------------ SIB-3
     base = repo.cls(LI, "LightPlatformInterface")
     df = repo.cls(LI, "LightPlatformDirectFade")
@@ -1112,6 +1154,8 @@ def battery():
         M("twin: colour-below scan as nested ifs", LT, "            if entry.priority <= priority and entry.key <= key:\n                stack = self.stack[i:]\n                break", "            if entry.priority <= priority:\n                if entry.key <= key:\n                    stack = self.stack[i:]\n                    break", None),
         M("twin: colour-below scan with a guard clause", LT, "            if entry.priority <= priority and entry.key <= key:\n                stack = self.stack[i:]\n                break", "            if not (entry.priority <= priority and entry.key <= key):\n                continue\n            stack = self.stack[i:]\n            break", None),
         M("twin: colour-below comparisons mirrored", LT, "            if entry.priority <= priority and entry.key <= key:", "            if priority >= entry.priority and key >= entry.key:", None),
+        M("every batched fade step cached as final", BL, "            brightness = target_brightness\n            self._last_brightness = brightness\n            done = True\n\n        return brightness, fade_ms, done", "            brightness = target_brightness\n            done = True\n\n        self._last_brightness = brightness\n        return brightness, fade_ms, done", "BATCH-2"),
+        M("sequential loader restarts the colour's channel list per letter", LT, "            if full_color_name not in self.hw_drivers:\n                self.hw_drivers[full_color_name] = []\n            channel = {'subtype': self.config['subtype'], 'platform': self.config['platform'],\n                       'platform_settings': self.config['platform_settings'], 'number': next_channel}", "            self.hw_drivers[full_color_name] = []\n            channel = {'subtype': self.config['subtype'], 'platform': self.config['platform'],\n                       'platform_settings': self.config['platform_settings'], 'number': next_channel}", "SIB-3"),
         M("fade start colour of another priority", LT, "            color_below = self.get_color_below(priority, key)", "            color_below = self.get_color_below(0, key)", "FADE-2"),
         M("twin: ratio on one line", LT, "            ratio = ((target_time - color_settings.start_time) /\n                     (color_settings.dest_time - color_settings.start_time))", "            ratio = (target_time - color_settings.start_time) / (color_settings.dest_time - color_settings.start_time)", None),
         M("start brightness of the white channel split differently from the target", LT, "                    if start_color.red == start_color.green == start_color.blue:\n                        start_brightness = start_color.red / 255.0", "                    if start_color.red == start_color.green:\n                        start_brightness = start_color.red / 255.0", "SIB-9"),
